@@ -719,3 +719,50 @@ Proof.
       * exact (p_qqcase_some _ _ _ _ _ _ _ _ P).
       * exact (compare_qq_sound _ _ _ _ _ _ V).
 Qed.
+
+(* ====================== consequences for Linear scales ====================== *)
+(* [is_lin_map] is the function the theorems C16_linear_* are about *)
+Lemma is_lin_map_iff s x y : is_lin_map (l_min s) (l_max s) x y <-> y == lin_map (lin_set_clamp s false) x.
+Proof.
+  split.
+  - intro H. apply (is_lin_map_fun _ _ _ _ _ H). exact (lin_map_is (lin_set_clamp s false) x eq_refl).
+  - intro H. pose proof (lin_map_is (lin_set_clamp s false) x eq_refl) as L. cbn [lin_set_clamp l_min l_max] in L.
+    destruct L as [[A B]|[A B]]; [left|right]; (split; [exact A|rewrite H; exact B]).
+Qed.
+
+Lemma Qabs_bounds a : - Qabs a <= a /\ a <= Qabs a.
+Proof. apply Qabs_Qle_condition. apply Qle_refl. Qed.
+
+(* clamp is 1-Lipschitz *)
+Lemma clampq_lip a b : Qabs (clampq a - clampq b) <= Qabs (a - b).
+Proof.
+  pose proof (Qabs_bounds (a - b)) as [L U]. apply Qabs_Qle_condition. unfold clampq.
+  destruct (Qltb a 0) eqn:A1; destruct (Qltb b 0) eqn:B1; gb_bool;
+  try (destruct (Qltb 1 a) eqn:A2); try (destruct (Qltb 1 b) eqn:B2); gb_bool; split; lra.
+Qed.
+
+(* the Map observed after SetClamp(true) is within the Map tolerance of the clamped affine value *)
+Theorem lin_probe_clamped mn mx r p : lin_probe_ok mn mx r p ->
+  exists y m1, is_lin_map mn mx (p_x p) y /\ p_m1 p = XFin m1 /\ Qabs (m1 - clampq y) <= tol_lin_map y.
+Proof.
+  intros ((y & m & Hy & Em & Hm) & Hc & _). rewrite Em in Hc. cbn in Hc. destruct Hc as (q1 & E1 & Q1).
+  exists y, q1. split; [exact Hy|]. split; [exact E1|].
+  rewrite Q1. eapply Qle_trans; [apply clampq_lip|exact Hm].
+Qed.
+
+(* the inverse law on the observations: Unmap (Map x) is within the sum of the two rounding
+   allowances of x (non-degenerate domain) *)
+Theorem lin_probe_inverse mn mx r p : ~ mn == mx -> lin_probe_ok mn mx r p ->
+  exists y m u, is_lin_map mn mx (p_x p) y /\ p_m0 p = XFin m /\ p_ux p = XFin u /\
+    Qabs (u - p_x p) <= tol_lin_unmap mn mx m + tol_lin_map y * Qabs (mx - mn).
+Proof.
+  intros N ((y & m & Hy & Em & Hm) & _ & (m' & Em' & (u & Eu & Hu)) & _).
+  rewrite Em in Em'. injection Em' as <-. exists y, m, u. repeat split; auto.
+  destruct Hy as [[A _]|[_ Hy]]; [contradiction|].
+  assert (W : ~ mx - mn == 0) by (intro W; apply N; lra).
+  assert (X : p_x p == y * (mx - mn) + mn) by (rewrite Hy; field; exact W).
+  unfold lin_unmap_spec in Hu.
+  setoid_replace (u - p_x p) with ((u - (m * (mx - mn) + mn)) + (m - y) * (mx - mn)) by (rewrite X; ring).
+  eapply Qle_trans; [apply Qabs_triangle|]. rewrite Qabs_Qmult.
+  apply Qplus_le_compat; [exact Hu|]. apply Qmult_le_compat_r; [exact Hm|apply Qabs_nonneg].
+Qed.
